@@ -64,6 +64,7 @@ func (rows *leveldbRows) Clear() {
 	if err := rows.db.Close(); err != nil {
 		panic(err)
 	}
+	verifPoint("Clear.afterClose")
 	rows.db = rows.newFunc(true)
 }
 
